@@ -251,6 +251,11 @@ theorem C17_fresh_calls (A : AEAD) (calls : List EncCall) (hlen : ∀ c ∈ call
   rw [List.pairwise_map]
   exact hne.imp_of_mem fun ha hb h => C17_fresh A _ _ _ _ _ _ (hlen _ ha) (hlen _ hb) h
 
+/-- `encryptMany` element by element (the form the driver evaluates). -/
+theorem encryptMany_eq_map (A : AEAD) (key msg : Bytes) (nonces : List Bytes) :
+    encryptMany A key msg nonces = nonces.map fun n => encryptWith A n key msg := by
+  simp [encryptMany, encryptCalls, List.map_map, Function.comp_def]
+
 /-- An interleaving of threads is a permutation of all their elements. -/
 theorem Interleave.perm {α : Type} {threads : List (List α)} {out : List α} (h : Interleave threads out) :
     out.Perm threads.flatten := by
